@@ -354,13 +354,16 @@ def find_urls(data: bytes) -> list[Node]:
                 group = group[:close]
         if not is_url(group):
             continue
+        normalized, obfuscation = normalize_percent_encoding(group)
         out.append(
             Node(
                 URL_TYPE,
-                *normalize_percent_encoding(group),
+                normalized,
+                obfuscation,
                 start,
                 end,
-                children=parse_url(group),
+                # parse the value the node carries, so that the parts index into it
+                children=parse_url(normalized),
             )
         )
     return out
